@@ -9,6 +9,42 @@ pub struct Ctx {
     pub n: usize,
     pub idx: BTreeMap<String, usize>, // collection path -> current index
     pub notes: Vec<String>,
+    /// rendered leaf identifier -> symbolic path it stands for
+    pub leaves: BTreeMap<String, Leaf>,
+}
+#[derive(Clone, Debug)]
+pub struct Leaf {
+    /// raw symbolic path, e.g. `variants[*].fields[*].hattrs.cmp.ord.key.?.0`
+    pub path: String,
+    /// element numbers (1-based) of the enclosing collections, outermost first
+    pub idx: Vec<usize>,
+}
+pub fn leaf_of(path: &str, ctx: &Ctx) -> Leaf {
+    let mut idx = Vec::new();
+    let b = path.as_bytes();
+    let mut i = 0;
+    while i < b.len() {
+        if b[i] == b'[' {
+            if path[i..].starts_with("[*]") {
+                let coll = &path[..i];
+                idx.push(ctx.idx.get(coll).copied().unwrap_or(0));
+                i += 3;
+                continue;
+            }
+            if path[i..].starts_with("[#") {
+                if let Some(j) = path[i..].find(']') {
+                    idx.push(path[i + 2..i + j].parse().unwrap_or(0));
+                    i += j + 1;
+                    continue;
+                }
+            }
+        }
+        i += 1;
+    }
+    Leaf { path: path.to_string(), idx }
+}
+impl Ctx {
+    pub fn new(n: usize) -> Ctx { Ctx { n, idx: Default::default(), notes: vec![], leaves: Default::default() } }
 }
 
 fn sanitize(s: &str) -> String {
@@ -50,7 +86,7 @@ pub fn text_of(v: &Val, ctx: &mut Ctx) -> String {
     match v {
         Val::Str(s) => s.clone(),
         Val::Int(i) => i.to_string(),
-        Val::Sym { path, .. } => leaf_name(path, ctx),
+        Val::Sym { path, .. } => { let n = leaf_name(path, ctx); let lf = leaf_of(path, ctx); ctx.leaves.insert(format!("__s_{n}"), lf); n }
         Val::Enum { var, .. } => var.clone(),
         Val::Opaque { what, deps } if what == "format_ident" || what == "format" => fmt(deps, ctx),
         other => sanitize(&other.short()),
@@ -100,7 +136,17 @@ pub fn render(v: &Val, ctx: &mut Ctx) -> TokenStream {
             for el in expand_seq(v, ctx) { ts.extend(el); }
             ts
         }
-        Val::Sym { path, .. } => std::iter::once(ident(&format!("__s_{}", leaf_name(path, ctx)))).collect(),
+        Val::Sym { path, ty } => {
+            let name = format!("__s_{}", leaf_name(path, ctx));
+            let lf = leaf_of(path, ctx);
+            ctx.leaves.insert(name.clone(), lf);
+            match ty.name() {
+                Some("WherePredicate") => TokenStream::from_str(&format!("{name}: __Pred")).unwrap(),
+                _ => std::iter::once(ident(&name)).collect(),
+            }
+        }
+        Val::Struct { .. } => { ctx.notes.push(format!("struct value in template {}", v.short().chars().take(60).collect::<String>())); std::iter::once(ident("__struct")).collect() }
+        Val::Tuple(vs) if vs.is_empty() => TokenStream::new(),
         Val::Int(i) => std::iter::once(TokenTree::Literal(Literal::i128_unsuffixed(*i))).collect(),
         Val::Str(s) => std::iter::once(TokenTree::Literal(Literal::string(s))).collect(),
         Val::Bool(b) => std::iter::once(ident(if *b { "true" } else { "false" })).collect(),
@@ -110,11 +156,38 @@ pub fn render(v: &Val, ctx: &mut Ctx) -> TokenStream {
             if let Some(n) = what.strip_prefix("tuple.") {
                 if let Some(Val::Opaque { what: w2, .. }) = deps.first() {
                     if w2 == ".split_for_impl" {
-                        return match n { "0" | "1" => TokenStream::from_str("<__G>").unwrap(), _ => TokenStream::new() };
+                        let src = match deps.first() { Some(Val::Opaque { deps: d2, .. }) => d2.first().map(|x| match x { Val::Sym { path, .. } => sanitize(path), Val::Opaque { what, deps } if what == "expand_self" => format!("x_{}", deps.first().map(|y| match y { Val::Sym { path, .. } => sanitize(path), o => sanitize(&o.short()) }).unwrap_or_default()), o => sanitize(&o.short().chars().take(30).collect::<String>()) }).unwrap_or_default(), _ => String::new() };
+                        let name = format!("__G_{src}");
+                        ctx.leaves.insert(name.clone(), Leaf { path: format!("generics({src})#{n}"), idx: vec![] });
+                        return match n { "0" | "1" => TokenStream::from_str(&format!("<{name}>")).unwrap(), _ => TokenStream::from_str(&format!("where {name}: __Where")).unwrap() };
                     }
                 }
             }
+            if (what == "call Index::from" || what == "call Index :: from") && deps.len() == 1 { return render(&deps[0], ctx); }
             if what.starts_with("unwrapped") || what.starts_with("Ok.") { if let Some(d) = deps.first() { return render(d, ctx); } }
+            if what == "replace_tokens" && deps.len() == 3 {
+                let k = render(&deps[0], ctx);
+                let a = render(&deps[2], ctx);
+                let mut ts = TokenStream::from_str("__apply").unwrap();
+                let mut inner = TokenStream::new();
+                inner.extend(k); inner.extend(TokenStream::from_str(",").unwrap()); inner.extend(a);
+                ts.extend(std::iter::once(TokenTree::Group(Group::new(Delimiter::Parenthesis, inner))));
+                return ts;
+            }
+            if what == "expand_self" && !deps.is_empty() {
+                // Self-expanded copy of a type / generics: printed as the thing itself, marked
+                let inner = render(&deps[0], ctx);
+                let txt = inner.to_string();
+                if let Some(TokenTree::Ident(id)) = inner.clone().into_iter().next() {
+                    if inner.clone().into_iter().count() == 1 {
+                        let name = format!("__x_{}", id.to_string().trim_start_matches('_'));
+                        ctx.leaves.insert(name.clone(), Leaf { path: format!("expand_self({})", deps[0].short()), idx: vec![] });
+                        return std::iter::once(ident(&name)).collect();
+                    }
+                }
+                ctx.notes.push(format!("expand_self of {txt}"));
+                return inner;
+            }
             ctx.notes.push(format!("opaque {}", v.short().chars().take(80).collect::<String>()));
             std::iter::once(ident(&format!("__o_{}", sanitize(&what.chars().take(24).collect::<String>())))).collect()
         }
